@@ -119,7 +119,7 @@ pub fn run(tier: Tier, seed: u64) -> i32 {
     let deadline = Deadline::new(tier.wall_cap());
     let values = boundary_values();
     let cases = cases();
-    let st = par_range("cases (widths 1..=64 x 2 signal orders, 16 double-bound column cases, 5 cases behind a bits(4,..) entry, 720 mixed-width cases) x 2 value paths", cases.len() as u64 * 2, &deadline, |idx, st| {
+    let mut st = par_range("cases (widths 1..=64 x 2 signal orders, 16 double-bound column cases, 5 cases behind a bits(4,..) entry, 720 mixed-width cases) x 2 value paths", cases.len() as u64 * 2, &deadline, |idx, st| {
         let case = &cases[(idx / 2) as usize];
         let via_device = idx % 2 == 0;
         let header: Vec<String> = case.header.iter().map(|s| s.to_string()).collect();
@@ -285,5 +285,6 @@ pub fn run(tier: Tier, seed: u64) -> i32 {
         exhaustive_note: "all widths x all boundary values x all listed paths; quick = thorough".into(),
         e1: false,
     };
+    st.merge(crate::props::c13::api_use_part(&deadline));
     finish(meta, st, started)
 }
